@@ -6,8 +6,8 @@ PROPS = ["Props/C05.v"]
 
 def run(ctx):
     schedcheck.run(ctx, "C05", PROPS,
-                   [("limits", 200, 2000), ("core", 60, 600), ("coredeps", 30, 300)],
+                   [("limits", 200, 2000), ("sublimits", 120, 1200), ("core", 60, 600), ("coredeps", 30, 300)],
                    ["c05"],
                    ["booked seconds are aggregated per calendar day / ISO week by the harness itself from the ledger",
                     "limit values are whole numbers of slots after int(hours / slot_hours), as the code computes them"],
-                   "corpus first; dailymax / weeklymax on resources, resource groups, tasks and containers (optionally restricted to one resource), horizons that overrun the declared end, starts on Sundays, at year ends, in 53-week years and with a time of day, resolutions 15-60 min; Gen/LimitsPy compared on the leaf grid; core projects compared with the extracted scheduler model")
+                   "corpus first; dailymax / weeklymax on resources, resource groups, tasks and containers (optionally restricted to one resource), horizons that overrun the declared end, starts on Sundays, at year ends, in 53-week years and with a time of day, resolutions 15-60 min; limits reached by tasks that begin or end inside a slot after a predecessor on another resource; Gen/LimitsPy compared on the leaf grid; core projects compared with the extracted scheduler model")
